@@ -169,6 +169,95 @@ def step (s : St) (w : List String) : St × String :=
     match s.r.string with
     | .ok (r', out) => ({ s with r := r' }, line "ok" out r' "ptr" alts)
     | x => (s, line "refused" [] s.r (resName x) alts)
+  -- C++ io::queue wrappers (mpt++/io_queue.cpp)
+  | ["xq", "new", mx, off, fill] =>
+    match mx.toNat?, off.toNat?, parseHex fill with
+    | some m, some o, some f =>
+      if o ≤ m ∧ f.length ≤ m then
+        let r := Ring.make m o f
+        ({ r := r, d := f }, line "ok" [] r "0" [(okR, f)])
+      else (s, "bad-op")
+    | _, _, _ => (s, "bad-op")
+  | ["xq", "push", dat] =>
+    match parseHex dat with
+    | some b =>
+      -- the wrapper grows the storage: a push is always accepted (an empty one may be refused on a full queue)
+      let alts : List Alt := (okR, d ++ b) :: (if b.isEmpty then [(refR, d)] else [])
+      match s.r.xpush b with
+      | .ok (r', true) => ({ r := r', d := d ++ b }, line "ok" [] r' "true" alts)
+      | .ok (r', false) => ({ s with r := r' }, line "refused" [] r' "false" alts)
+      | x => (s, line "refused" [] s.r (resName x) alts)
+    | none => (s, "bad-op")
+  | ["xq", "unshift", dat] =>
+    match parseHex dat with
+    | some b =>
+      let alts : List Alt := (okR, b ++ d) :: (if b.isEmpty then [(refR, d)] else [])
+      match s.r.xunshift b with
+      | .ok (r', true) => ({ r := r', d := b ++ d }, line "ok" [] r' "true" alts)
+      | .ok (r', false) => ({ s with r := r' }, line "refused" [] r' "false" alts)
+      | x => (s, line "refused" [] s.r (resName x) alts)
+    | none => (s, "bad-op")
+  | "xq" :: "pop" :: n :: rest =>
+    match n.toNat? with
+    | some n =>
+      let dst := rest ≠ ["nodst"]
+      let sp := Deque.pop d n
+      let alts : List Alt := match sp with
+        | some (rest, out) => (okR (if dst then out else []), rest) :: (if n = 0 then [(refR, d)] else [])
+        | none => [(refR, d)]
+      match s.r.xpop n dst with
+      | .ok (r', true, out) => ({ r := r', d := (sp.map (·.1)).getD d }, line "ok" out r' "true" alts)
+      | .ok (r', false, _) => ({ s with r := r' }, line "refused" [] r' "false" alts)
+      | x => (s, line "refused" [] s.r (resName x) alts)
+    | none => (s, "bad-op")
+  | "xq" :: "shift" :: n :: rest =>
+    match n.toNat? with
+    | some n =>
+      let dst := rest ≠ ["nodst"]
+      let sp := Deque.shift d n
+      let alts : List Alt := match sp with
+        | some (rest, out) => (okR (if dst then out else []), rest) :: (if n = 0 then [(refR, d)] else [])
+        | none => [(refR, d)]
+      match s.r.xshift n dst with
+      | .ok (r', true, out) => ({ r := r', d := (sp.map (·.1)).getD d }, line "ok" out r' "true" alts)
+      | .ok (r', false, _) => ({ s with r := r' }, line "refused" [] r' "false" alts)
+      | x => (s, line "refused" [] s.r (resName x) alts)
+    | none => (s, "bad-op")
+  | ["xq", "write", part, dat] =>
+    match part.toNat?, parseHex dat with
+    | some p, some b =>
+      if p = 0 ∨ b.length % p ≠ 0 then (s, "bad-op") else
+      let elems := (List.range (b.length / p)).map fun i => (b.drop (i * p)).take p
+      -- every element is accepted (the storage grows): the caller is told `len`
+      let alts : List Alt := [(s!"ok n={elems.length} out=-", d ++ b)]
+      match s.r.xwrite p elems with
+      | .ok (r', k) => ({ r := r', d := d ++ b.take (k * p) }, line s!"ok n={k}" [] r' (toString k) alts)
+      | x => (s, line "refused" [] s.r (resName x) alts)
+    | _, _ => (s, "bad-op")
+  | ["xq", "read", len, part] =>
+    match len.toNat?, part.toNat? with
+    | some l, some p =>
+      if p = 0 ∨ l > 4096 ∨ p > 4096 then (s, "bad-op") else
+      -- spec: `len` times pop(part), stopping at the first element that is not there
+      let k := Nat.min l (d.length / p)
+      let outs := (List.range k).map fun i => (d.drop (d.length - (i + 1) * p)).take p
+      let alts : List Alt := [(s!"ok n={k} out={toHex outs.flatten}", d.take (d.length - k * p))]
+      match s.r.xread p l with
+      | .ok (r', got) =>
+        ({ r := r', d := d.take (d.length - got.length * p) }, line s!"ok n={got.length}" got.flatten r' (toString got.length) alts)
+      | x => (s, line "refused" [] s.r (resName x) alts)
+    | _, _ => (s, "bad-op")
+  | ["xq", "peek", n] =>
+    match n.toNat? with
+    | some n =>
+      let want := Nat.min (if n = 0 then d.length else n) d.length
+      let alts : List Alt := [(okR (d.take want), d)]
+      match s.r.xpeek n with
+      | .ok (r', out) =>
+        if out.length < want then ({ s with r := r' }, line "short" out r' (toString out.length) alts)
+        else ({ s with r := r' }, line "ok" (out.take want) r' (toString out.length) alts)
+      | x => (s, line "refused" [] s.r (resName x) alts)
+    | none => (s, "bad-op")
   | _ => (s, "bad-op")
 
 def main (_args : List String) : IO Unit := do
